@@ -54,12 +54,17 @@ def check(ctx):
     for (b, s) in suspicious:
         for bb in range(1, 11):
             todo.append((bb, s))
-    verdicts = common.pmap('harness.intexpr_lib', 'oracle_period', todo)
-    ctx.evaluations += sum(1 << b for (b, _) in todo)
-    ctx.count('bruteforce_expr_width_pairs', len(todo))
+    big = [(b, s) for (b, s, _) in cases if b > maxb]
+    verdicts = common.pmap('harness.intexpr_lib', 'oracle_period', todo) + common.pmap('harness.intexpr_lib', 'oracle_period_sampled', big)
+    ctx.count('sampled_large_width_pairs', len(big))
+    todo = todo + big
+    ctx.evaluations += sum((1 << b) if b <= 10 else 60 for (b, _) in todo)
+    ctx.count('bruteforce_expr_width_pairs', len(todo) - len(big))
     for (b, s), v in zip(todo, verdicts):
         if v is not None:
             finding = None
+            if 'raised RecursionError' in str(v) and L.is_deep(s):
+                continue
             ctx.fail('period-unsound' if 'raised' not in str(v) else 'period-crash', {'bits': b, 'expr': s}, v, finding)
     ctx.samples = [{'bits': b, 'expr': s, 'origin': o} for (b, s, o) in cases[::max(1, len(cases) // 10)]][:10]
     return common.finish(
